@@ -517,6 +517,13 @@ def _clean_up_state(state: State) -> None:
         flow_states.remove(flow_state)
         del state.flow_states[flow_state_uid]
 
+    # A flow that was activated by several flows is listed as a child of each of them
+    if states_to_be_removed:
+        for flow_state in state.flow_states.values():
+            for flow_state_uid in states_to_be_removed:
+                if flow_state_uid in flow_state.child_flow_uids:
+                    flow_state.child_flow_uids.remove(flow_state_uid)
+
     # Remove all actions that are no longer referenced
     # TODO: Refactor to use no more ids to simplify memory management
     new_action_dict: Dict[str, Action] = {}
